@@ -64,7 +64,10 @@ def quick_corpus():
     c.append(tok("cdn", s=1, fs=1, orth=False, wall="slant2", tag="cdn-nonorth"))
     c.append(tok("ldn", s=1, fs=1, tag="ldn-base"))
     c.append(tok("ldn", s=-1, fs=1, orth=False, tag="ldn-nonorth-rev"))
-    c.append(tok("udn", s=-1, fs=-1, interp="dct", guards=0, tag="udn-dct-rev-g0"))
+    c.append(tok("udn", s=-1, fs=-1, guards=0, tag="udn-rev-g0"))
+    c.append(tok("ldn", s=1, fs=-1, interp="dct", guards=0, tag="ldn-dct-g0", eq_extra={"nR": 49, "nZ": 57}))
+    c.append(tok("lsn", s=-1, fs=1, orth=False, tag="lsn-nonorth-rev", nonorthogonal_spacing_method="poloidal_orthogonal_combined"))
+    c.append(tok("usn", s=-1, fs=-1, tag="usn-xyderiv", curvature_type="curl(b/B) with x-y derivatives", nx_core=4, nx_sol=4))
     c.append(tok("udn", s=1, fs=1, orth=False, guards=2, tag="udn-nonorth-g2"))
     c.append(tok("lsn", s=1, fs=1, via="geqdsk", wall={"kind": "slant", "cw": True}, tag="lsn-geqdsk-cw"))
     # strongly unequal legs (C08) -- long outer leg, long inner leg
